@@ -74,3 +74,6 @@ pub(crate) mod gen {
     pub(crate) mod prefixed;
     pub(crate) mod ranged;
 }
+
+#[cfg(kani)]
+pub(crate) use retry::verif_harness as verif_retry;
